@@ -79,7 +79,7 @@ func (p MembershipProof) Verify(eventDigest []byte, expectedRootHash hashing.Dig
 	visitor := newComputeHashVisitor(p.hasher, p.AuditPath)
 	recomputed := pruneToVerify(p.Index, p.Version, eventDigest).Accept(visitor)
 
-	return bytes.Equal(recomputed, expectedRootHash)
+	return !visitor.missing && bytes.Equal(recomputed, expectedRootHash)
 }
 
 type IncrementalProof struct {
@@ -104,6 +104,6 @@ func (p IncrementalProof) Verify(startDigest, endDigest hashing.Digest) (correct
 	startRecomputed := pruneToVerifyIncrementalStart(p.StartVersion).Accept(visitor)
 	endRecomputed := pruneToVerifyIncrementalEnd(p.StartVersion, p.EndVersion).Accept(visitor)
 
-	return bytes.Equal(startRecomputed, startDigest) && bytes.Equal(endRecomputed, endDigest)
+	return !visitor.missing && bytes.Equal(startRecomputed, startDigest) && bytes.Equal(endRecomputed, endDigest)
 
 }
